@@ -9,12 +9,15 @@ import (
 // Waiter will use a conditional mutex to alert the reader to when data is
 // available.
 type Waiter struct {
+	// sets is the first field so that it is 64-bit aligned on 32-bit
+	// platforms, as the 64-bit functions of sync/atomic require.
+	sets uint64 // number of completed Set calls
+
 	Diode
 	mu  sync.Mutex
 	c   *sync.Cond
 	ctx context.Context
 
-	sets    uint64 // number of completed Set calls
 	waiting uint32 // 1 while the reader is about to wait or is waiting
 }
 
